@@ -5,6 +5,7 @@ package verifsim
 import (
 	"fmt"
 	"runtime"
+	"sort"
 	"strings"
 	"sync"
 	"time"
@@ -27,6 +28,9 @@ type UISession struct {
 	keysOut  int
 	keysBack int
 	returned map[int]bool
+	callSeq, returnedSeq int
+	inflight    map[int][2]int
+	returned2   [2]int // size of the newest size report that has returned
 	execs    []simexec.Record
 	pollerOn bool
 	stopPoll bool
@@ -46,6 +50,7 @@ type Frame struct {
 
 func newUISession(r *Run, w, h int) *UISession {
 	u := &UISession{r: r, w: w, h: h}
+	u.returned2 = [2]int{w, h}
 	u.sizes = append(u.sizes, [2]int{w, h})
 	u.st = ui.NewState(w, h, u.sink)
 	simexec.SetHandler(func(rec simexec.Record) simexec.Outcome {
@@ -190,18 +195,43 @@ func (u *UISession) Resize(w, h int) {
 	u.r.S.GoLabel(fmt.Sprintf("resize#%d", n), func() { u.tellSize() })
 }
 
+// tellSize makes one SetWidthHeight call. While the call is in progress both the previous and
+// the new size are acceptable for a frame; once it has returned only the new one is (a resize
+// report that returns without having taken effect leaves the UI with a stale height).
 func (u *UISession) tellSize() {
 	u.mu.Lock()
 	w, h := u.w, u.h
-	last := u.sizes[len(u.sizes)-1]
-	if last != [2]int{w, h} {
-		u.sizes = append(u.sizes, [2]int{w, h})
-		if len(u.sizes) > 3 {
-			u.sizes = u.sizes[len(u.sizes)-3:]
-		}
+	u.callSeq++
+	id := u.callSeq
+	if u.inflight == nil {
+		u.inflight = map[int][2]int{}
 	}
+	u.inflight[id] = [2]int{w, h}
+	u.recompute()
 	u.mu.Unlock()
 	u.st.SetWidthHeight(w, h)
+	u.mu.Lock()
+	delete(u.inflight, id)
+	if id > u.returnedSeq {
+		u.returnedSeq = id
+		u.returned2 = [2]int{w, h}
+	}
+	u.recompute()
+	u.mu.Unlock()
+}
+
+// recompute: sizes = the size of the newest report that has returned + sizes of reports in progress.
+func (u *UISession) recompute() {
+	sizes := [][2]int{u.returned2}
+	ids := make([]int, 0, len(u.inflight))
+	for id := range u.inflight {
+		ids = append(ids, id)
+	}
+	sort.Ints(ids)
+	for _, id := range ids {
+		sizes = append(sizes, u.inflight[id])
+	}
+	u.sizes = sizes
 }
 
 // StartPoller runs main.go's 25 ms poll loop for at most maxTicks ticks.
